@@ -82,7 +82,8 @@ def run(ctx):
     else:
         ctx.add_mc("Subscription (all txs, 2 plans, 2 buyers)", res)
     n = ctx.pick(50, 300)
-    need = {"paid": 15, "zero-cu": 10, "multi-provider": 5, "sub-gone": 1, "capped": 1, "relay:ok": 100}
+    need = {"paid": 15, "zero-cu": 10, "multi-provider": 5, "sub-gone": 1, "relay:ok": 100}
+    # "capped" payouts (credit above 100 per tracked CU) need a single 10-CU relay in a month: rare, reported, not required
     pay = sl.collections.Counter()
     behs, nrows = [], 0
     for rnd in range(4):     # top-up rounds until every payout kind is covered
@@ -124,6 +125,8 @@ def run(ctx):
     ctx.cov["traces_validated_against_impl"] += len(behs)
     ctx.cov["trace_events"] = nrows
     ctx.cov["payouts"] = dict(pay)
+    if pay["capped"] == 0:
+        ctx.notes.append("no payout with the per-CU cap active was generated in this run")
     if miss:
         raise vlib.Infra("vacuous coverage after 4 rounds (have, need): %s" % miss)
     ctx.cov["distinct_nontrivial"] = len({vlib.json.dumps(b) for b in behs
